@@ -5,5 +5,6 @@ import HotXL.Generated.DateTime
 import HotXL.Generated.Grammar
 import HotXL.Generated.Lexer
 import HotXL.Generated.Operators
+import HotXL.Generated.Power
 import HotXL.Generated.Registry
 import HotXL.Generated.Round
